@@ -234,10 +234,9 @@ impl ToZinc for Uri {
     fn to_zinc<W: std::io::Write>(&self, writer: &mut W) -> Result<()> {
         writer.write_all(b"`")?;
         for c in self.value.chars() {
-            if c < ' ' {
-                continue;
-            }
             match c {
+                // Control characters are escaped, not dropped
+                '\x00'..='\x1f' => writer.write_fmt(format_args!("\\u{:04x}", c as u32))?,
                 '`' => writer.write_all(br"\`")?,
                 '\\' => writer.write_all(br"\\")?,
                 '\x20'..='\x7e' => writer.write_all(&[c as u8])?,
